@@ -11,7 +11,7 @@ package main
 
 //@ func (*rateFlag).Set
 //@   deadexit return fmt.Errorf("-rate format %q doesn't match the \"freq/
-//@   property C19 C16
+//@   property C19 C16 C01
 //@   returns (err)
 //@   requires [non-nil] f != nil && f.Rate != nil
 //@   modifies f.Rate.Freq, f.Rate.Per
@@ -42,7 +42,7 @@ package main
 //@   ensures err == nil && len(*l) == split_n(v, ",") && (forall i int :: 0 <= i && i < len(*l) ==> (*l)[i] == split_i(v, ",", i))
 
 //@ func (*maxBodyFlag).Set
-//@   property C19 C16
+//@   property C19 C16 C06
 //@   returns (err)
 //@   requires [non-nil] f != nil && f.n != nil
 //@   modifies *f.n
